@@ -27,6 +27,7 @@ CONSTANTS
   AllowInsert = TRUE
   Keyed = FALSE
   LateInitSel = TRUE
+  Late <- LateNone
   ReplayAtEnd = @ATEND@
 SYMMETRY WriterSymmetry
 INVARIANTS FillAccounting ReadBack IndexCoherent NoCollision OccupiedIsLive NoStaleValues StreamIds Converged
